@@ -374,7 +374,7 @@ theorem drop_len_succ {α} {a : List α} {n : Nat} (h : a.length = n) (x : α) (
   subst h
   induction a with
   | nil => rfl
-  | cons h t ih => simpa using ih
+  | cons h t ih => simp [ih]
 
 /-- at most one wildcard block -/
 def OneWild (bs : List Blk) : Prop := bs.countP Blk.isWild ≤ 1
@@ -382,91 +382,872 @@ def OneWild (bs : List Blk) : Prop := bs.countP Blk.isWild ≤ 1
 theorem countP_zero_iff (bs : List Blk) : bs.countP Blk.isWild = 0 ↔ hasWild bs = false := by
   simp [hasWild, List.countP_eq_zero]
 
-/-- the tail of `denoteRegion`, evaluated on the accumulator of a block list with at most one wildcard -/
-theorem finish_toAcc (pfx : String) (bs : List Blk) (n : Nat) (length : Option Nat) (h1 : OneWild bs) :
-    (let a := toAcc bs n
-     let fixedLen := (a.segs.map List.length).sum
-     match a.wild with
-     | none =>
-       (match length with
-        | some l => if l != fixedLen then throw Denote.Err.length else pure ()
-        | none => pure ()) >>= fun _ =>
-       (pure (a.segs, a.newDomains.map (·.2), a.anon) : Except Denote.Err _)
-     | some (i, parts) =>
-       match length with
-       | none => throw .wildcard
-       | some l =>
-         if l < fixedLen then throw .length
-         else match resolve parts (some (l - fixedLen)) with
-         | .error _ => throw .length
-         | .ok (wl, c) =>
-           let name := pfx ++ "_Anon" ++ toString a.anon
-           let k := (a.newDomains.filter (fun d => d.1 < i)).length
-           let doms := a.newDomains.map (·.2)
-           pure (setAt a.segs i (fwd name wl), doms.take k ++ (name, c) :: doms.drop k, a.anon + 1))
-    = finishB pfx bs n length := by
-  simp only [toAcc]
-  cases hw : wildAt 0 bs with
+theorem blocks_oneWild (pfx : String) (env : Env) :
+    ∀ (items : List SrcItem) (n : Nat) (w : Bool) {bs : List Blk} {n' : Nat},
+      blocks pfx env items n w = .ok (bs, n') → bs.countP Blk.isWild + (if w then 1 else 0) ≤ 1
+  | [], n, w, bs, n', h => by
+    simp only [blocks, Except.ok.injEq, Prod.mk.injEq] at h
+    obtain ⟨rfl, _⟩ := h
+    cases w <;> simp
+  | .ref x star :: r, n, w, bs, n', h => by
+    simp only [blocks] at h
+    cases hl : env.seqs.lookup x with
+    | none => simp [hl] at h
+    | some b =>
+      simp only [hl] at h
+      cases hb : blocks pfx env r n w with
+      | error e => simp [hb] at h
+      | ok p =>
+        simp only [hb, Except.ok.injEq, Prod.mk.injEq] at h
+        obtain ⟨rfl, _⟩ := h
+        have := blocks_oneWild pfx env r n w (bs := p.1) (n' := p.2) hb
+        simpa [List.countP_cons, Blk.isWild] using this
+  | .domains x star :: r, n, w, bs, n', h => by
+    simp only [blocks] at h
+    cases hl : env.seqs.lookup x with
+    | none => simp [hl] at h
+    | some b =>
+      simp only [hl] at h
+      split at h
+      · cases h
+      · cases hb : blocks pfx env r n w with
+        | error e => simp [hb] at h
+        | ok p =>
+          simp only [hb, Except.ok.injEq, Prod.mk.injEq] at h
+          obtain ⟨rfl, _⟩ := h
+          have := blocks_oneWild pfx env r n w (bs := p.1) (n' := p.2) hb
+          have h0 : List.countP Blk.isWild ((if star then rcSegs b.segs else b.segs).map Blk.plain) = 0 := by
+            rw [countP_zero_iff, hasWild_plain]
+          rw [List.countP_append, h0]
+          omega
+  | .nuc text :: r, n, w, bs, n', h => by
+    simp only [blocks] at h
+    split at h
+    · cases hb : blocks pfx env r (n + 1) w with
+      | error e => simp [hb] at h
+      | ok p =>
+        simp only [hb, Except.ok.injEq, Prod.mk.injEq] at h
+        obtain ⟨rfl, _⟩ := h
+        have := blocks_oneWild pfx env r (n + 1) w (bs := p.1) (n' := p.2) hb
+        simpa [List.countP_cons, Blk.isWild] using this
+    · cases w with
+      | true => simp at h
+      | false =>
+        simp only [Bool.false_eq_true, if_false] at h
+        cases hb : blocks pfx env r n true with
+        | error e => simp [hb] at h
+        | ok p =>
+          simp only [hb, Except.ok.injEq, Prod.mk.injEq] at h
+          obtain ⟨rfl, _⟩ := h
+          have := blocks_oneWild pfx env r n true (bs := p.1) (n' := p.2) hb
+          simp only [if_true] at this
+          simp only [List.countP_cons, Blk.isWild, if_true, Bool.false_eq_true, if_false]
+          omega
+    · cases h
+
+/-- `denoteRegion`, index-free: the blocks of the item list, then `finishB` -/
+theorem denoteRegion_eq_blocks (pfx : String) (env : Env) (items : List SrcItem) (length : Option Nat) :
+    denoteRegion pfx env items length =
+      match blocks pfx env items env.anon false with
+      | .error e => .error e
+      | .ok p => finishB pfx p.1 p.2 length := by
+  unfold denoteRegion
+  have h0 : ({ anon := env.anon } : ItemsAcc) = toAcc [] env.anon := rfl
+  rw [h0, denoteItems_blocks]
+  have hw0 : hasWild [] = false := rfl
+  rw [hw0]
+  cases hb : blocks pfx env items env.anon false with
+  | error e => rfl
+  | ok p =>
+    obtain ⟨bs, n⟩ := p
+    have h1 : OneWild bs := by
+      have := blocks_oneWild pfx env items env.anon false hb
+      simpa [OneWild] using this
+    simp only [Except.map, List.nil_append, bind, Except.bind]
+    simp only [toAcc]
+    cases hw : wildAt 0 bs with
+    | none =>
+      have hn := (wildAt_none_iff 0 bs).1 hw
+      obtain ⟨wp, _, _⟩ := noWild_facts bs hn
+      simp only [finishB, wp, domsAt_snd, fixedLen]
+      cases length with
+      | none => rfl
+      | some l =>
+        by_cases hl : (l != ((bs.map Blk.seg).map List.length).sum) = true
+        · simp only [hl, if_true]; rfl
+        · simp only [hl, Bool.false_eq_true, if_false]; rfl
+    | some ip =>
+      obtain ⟨i, parts⟩ := ip
+      obtain ⟨pre, post, e1, e2, e3⟩ := wildAt_decomp 0 bs hw
+      have hpost : hasWild post = false := by
+        unfold OneWild at h1
+        rw [e1, List.countP_append, List.countP_cons] at h1
+        simp only [Blk.isWild, if_true] at h1
+        rw [← countP_zero_iff]
+        omega
+      obtain ⟨_, fs1, fd1⟩ := noWild_facts pre e3
+      obtain ⟨_, fs2, fd2⟩ := noWild_facts post hpost
+      have wp : wildParts bs = some parts := by
+        rw [e1, wildParts_append_noWild pre e3]; rfl
+      simp only [finishB, wp, domsAt_snd, fixedLen]
+      cases length with
+      | none => rfl
+      | some l =>
+        dsimp only
+        by_cases hl : l < ((bs.map Blk.seg).map List.length).sum
+        · simp only [hl, if_true]; rfl
+        · simp only [hl, if_false]
+          cases resolve parts (some (l - ((bs.map Blk.seg).map List.length).sum)) with
+          | error e => rfl
+          | ok r =>
+            obtain ⟨wl, c⟩ := r
+            simp only [pure, Except.pure]
+            have hi : i = pre.length := by omega
+            subst hi
+            congr 2
+            · -- segments
+              rw [e1]
+              simp only [List.map_append, List.map_cons, setAt, fillSegs_append, fillSegs, fs1, fs2]
+              rw [List.take_left' (by simp), drop_len_succ (by simp)]
+            · congr 1
+              -- domains
+              have hk : ((domsAt 0 bs).filter (fun d => d.1 < pre.length)).length = (domsOf pre).length := by
+                rw [e1, domsAt_append, List.filter_append]
+                have ha : (domsAt 0 pre).filter (fun d => decide (d.1 < pre.length)) = domsAt 0 pre := by
+                  rw [List.filter_eq_self]
+                  intro d hd
+                  have := domsAt_range 0 pre d hd
+                  simp; omega
+                have hb : (domsAt (0 + pre.length) (.wild parts :: post)).filter (fun d => decide (d.1 < pre.length)) = [] := by
+                  rw [List.filter_eq_nil_iff]
+                  intro d hd
+                  have := domsAt_range _ _ d hd
+                  simp; omega
+                rw [ha, hb, List.append_nil, ← domsAt_snd 0 pre, List.length_map]
+              rw [hk, e1, domsOf_append, fillDoms_append]
+              simp only [domsOf, fillDoms, fd1, fd2]
+              rw [List.take_left' rfl, List.drop_left' rfl]
+
+/-! ### splitting an item list -/
+
+theorem blocks_append (pfx : String) (env : Env) :
+    ∀ (xs ys : List SrcItem) (n : Nat) (w : Bool),
+      blocks pfx env (xs ++ ys) n w =
+        match blocks pfx env xs n w with
+        | .error e => .error e
+        | .ok p =>
+          match blocks pfx env ys p.2 (w || hasWild p.1) with
+          | .error e => .error e
+          | .ok q => .ok (p.1 ++ q.1, q.2)
+  | [], ys, n, w => by
+    simp only [List.nil_append, blocks, hasWild, List.any_nil, Bool.or_false]
+    cases blocks pfx env ys n w <;> rfl
+  | .ref x star :: r, ys, n, w => by
+    simp only [List.cons_append, blocks]
+    cases env.seqs.lookup x with
+    | none => rfl
+    | some b =>
+      simp only [blocks_append pfx env r ys n w]
+      cases blocks pfx env r n w with
+      | error e => rfl
+      | ok p =>
+        have : hasWild (Blk.plain (if star then rc b.nucs else b.nucs) :: p.1) = hasWild p.1 := by
+          simp [hasWild, Blk.isWild]
+        simp only [this]
+        cases blocks pfx env ys p.2 (w || hasWild p.1) <;> rfl
+  | .domains x star :: r, ys, n, w => by
+    simp only [List.cons_append, blocks]
+    cases env.seqs.lookup x with
+    | none => rfl
+    | some b =>
+      dsimp only
+      split
+      · rfl
+      · simp only [blocks_append pfx env r ys n w]
+        cases blocks pfx env r n w with
+        | error e => rfl
+        | ok p =>
+          have : hasWild ((if star then rcSegs b.segs else b.segs).map Blk.plain ++ p.1) = hasWild p.1 := by
+            rw [hasWild_append, hasWild_plain, Bool.false_or]
+          simp only [this]
+          cases blocks pfx env ys p.2 (w || hasWild p.1) with
+          | error e => rfl
+          | ok q => simp
+  | .nuc text :: r, ys, n, w => by
+    simp only [List.cons_append, blocks]
+    split
+    · simp only [blocks_append pfx env r ys (n + 1) w]
+      cases blocks pfx env r (n + 1) w with
+      | error e => rfl
+      | ok p =>
+        rename_i l c _
+        have : hasWild (Blk.anon (pfx ++ "_Anon" ++ toString n) c (fwd (pfx ++ "_Anon" ++ toString n) l) :: p.1)
+            = hasWild p.1 := by simp [hasWild, Blk.isWild]
+        simp only [this]
+        cases blocks pfx env ys p.2 (w || hasWild p.1) <;> rfl
+    · cases w with
+      | true => rfl
+      | false =>
+        simp only [Bool.false_eq_true, if_false, blocks_append pfx env r ys n true]
+        cases blocks pfx env r n true with
+        | error e => rfl
+        | ok p =>
+          have : hasWild (Blk.wild (parseQuoted text) :: p.1) = true := by simp [hasWild, Blk.isWild]
+          simp only [this, Bool.true_or, Bool.false_or]
+          cases blocks pfx env ys p.2 true <;> rfl
+    · rfl
+
+/-- number of blocks (= segments) an item list contributes -/
+def blkCount (env : Env) : List SrcItem → Nat
+  | [] => 0
+  | .ref _ _ :: r => 1 + blkCount env r
+  | .nuc _ :: r => 1 + blkCount env r
+  | .domains x _ :: r => (match env.seqs.lookup x with | some b => b.segs.length | none => 0) + blkCount env r
+
+theorem blocks_length (pfx : String) (env : Env) :
+    ∀ (items : List SrcItem) (n : Nat) (w : Bool) {bs : List Blk} {n' : Nat},
+      blocks pfx env items n w = .ok (bs, n') → bs.length = blkCount env items
+  | [], n, w, bs, n', h => by
+    simp only [blocks, Except.ok.injEq, Prod.mk.injEq] at h
+    obtain ⟨rfl, _⟩ := h
+    rfl
+  | .ref x star :: r, n, w, bs, n', h => by
+    simp only [blocks] at h
+    cases hl : env.seqs.lookup x with
+    | none => simp [hl] at h
+    | some b =>
+      simp only [hl] at h
+      cases hb : blocks pfx env r n w with
+      | error e => simp [hb] at h
+      | ok p =>
+        simp only [hb, Except.ok.injEq, Prod.mk.injEq] at h
+        obtain ⟨rfl, _⟩ := h
+        have := blocks_length pfx env r n w (bs := p.1) (n' := p.2) hb
+        simp [blkCount, this]; omega
+  | .domains x star :: r, n, w, bs, n', h => by
+    simp only [blocks] at h
+    cases hl : env.seqs.lookup x with
+    | none => simp [hl] at h
+    | some b =>
+      simp only [hl] at h
+      split at h
+      · cases h
+      · cases hb : blocks pfx env r n w with
+        | error e => simp [hb] at h
+        | ok p =>
+          simp only [hb, Except.ok.injEq, Prod.mk.injEq] at h
+          obtain ⟨rfl, _⟩ := h
+          have := blocks_length pfx env r n w (bs := p.1) (n' := p.2) hb
+          cases star <;> simp [blkCount, this, hl, rcSegs]
+  | .nuc text :: r, n, w, bs, n', h => by
+    simp only [blocks] at h
+    split at h
+    · cases hb : blocks pfx env r (n + 1) w with
+      | error e => simp [hb] at h
+      | ok p =>
+        simp only [hb, Except.ok.injEq, Prod.mk.injEq] at h
+        obtain ⟨rfl, _⟩ := h
+        have := blocks_length pfx env r (n + 1) w (bs := p.1) (n' := p.2) hb
+        simp [blkCount, this]; omega
+    · cases w with
+      | true => simp at h
+      | false =>
+        simp only [Bool.false_eq_true, if_false] at h
+        cases hb : blocks pfx env r n true with
+        | error e => simp [hb] at h
+        | ok p =>
+          simp only [hb, Except.ok.injEq, Prod.mk.injEq] at h
+          obtain ⟨rfl, _⟩ := h
+          have := blocks_length pfx env r n true (bs := p.1) (n' := p.2) hb
+          simp [blkCount, this]; omega
+    · cases h
+
+/-! ### inserting a block with an empty segment -/
+
+theorem wildParts_append (a b : List Blk) : wildParts (a ++ b) = (wildParts a).or (wildParts b) := by
+  induction a with
+  | nil => simp [wildParts]
+  | cons h t ih => cases h <;> simp [wildParts, ih]
+
+theorem fixedLen_append (a b : List Blk) : fixedLen (a ++ b) = fixedLen a + fixedLen b := by
+  simp [fixedLen, List.sum_append]
+
+theorem fillSegs_length (x : List Nuc) (bs : List Blk) : (fillSegs x bs).length = bs.length := by
+  induction bs with
+  | nil => rfl
+  | cons h t ih => cases h <;> simp [fillSegs, ih]
+
+theorem insertAt_append_left {α} (a b : List α) (x : α) {j : Nat} (h : a.length = j) :
+    insertAt (a ++ b) j x = a ++ x :: b := by
+  subst h
+  simp [insertAt]
+
+/-- result of a region with one empty segment inserted at position `j` -/
+def insSeg (j : Nat) (r : List (List Nuc) × List (String × List Char) × Nat) :
+    List (List Nuc) × List (String × List Char) × Nat := (insertAt r.1 j [], r.2.1, r.2.2)
+
+theorem finishB_insert_plain (pfx : String) (bp bq : List Blk) (n : Nat) (length : Option Nat) :
+    finishB pfx (bp ++ .plain [] :: bq) n length = (finishB pfx (bp ++ bq) n length).map (insSeg bp.length) := by
+  have hw : wildParts (bp ++ .plain [] :: bq) = wildParts (bp ++ bq) := by
+    simp [wildParts_append, wildParts]
+  have hf : fixedLen (bp ++ .plain [] :: bq) = fixedLen (bp ++ bq) := by
+    simp [fixedLen, Blk.seg]
+  have hd : domsOf (bp ++ .plain [] :: bq) = domsOf (bp ++ bq) := by
+    simp [domsOf_append, domsOf]
+  have hs : (bp ++ .plain [] :: bq).map Blk.seg = insertAt ((bp ++ bq).map Blk.seg) bp.length [] := by
+    rw [List.map_append, List.map_append, insertAt_append_left _ _ _ (by simp)]
+    rfl
+  have hfs : ∀ x, fillSegs x (bp ++ .plain [] :: bq) = insertAt (fillSegs x (bp ++ bq)) bp.length [] := by
+    intro x
+    rw [fillSegs_append, fillSegs_append, insertAt_append_left _ _ _ (fillSegs_length x bp)]
+    rfl
+  have hfd : ∀ wd, fillDoms wd (bp ++ .plain [] :: bq) = fillDoms wd (bp ++ bq) := by
+    intro wd
+    simp [fillDoms_append, fillDoms]
+  unfold finishB
+  rw [hw, hf, hd, hs]
+  cases wildParts (bp ++ bq) with
   | none =>
-    have hn := (wildAt_none_iff 0 bs).1 hw
-    obtain ⟨wp, _, _⟩ := noWild_facts bs hn
-    simp only [finishB, wp, domsAt_snd, fixedLen]
     cases length with
     | none => rfl
-    | some l =>
-      by_cases hl : (l != ((bs.map Blk.seg).map List.length).sum) = true
-      · simp only [hl, if_true]; rfl
-      · simp only [hl, Bool.false_eq_true, if_false]; rfl
-  | some ip =>
-    obtain ⟨i, parts⟩ := ip
-    obtain ⟨pre, post, e1, e2, e3⟩ := wildAt_decomp 0 bs hw
-    have hpost : hasWild post = false := by
-      unfold OneWild at h1
-      rw [e1, List.countP_append, List.countP_cons] at h1
-      simp only [Blk.isWild, if_true] at h1
-      rw [← countP_zero_iff]
-      omega
-    obtain ⟨_, fs1, fd1⟩ := noWild_facts pre e3
-    obtain ⟨_, fs2, fd2⟩ := noWild_facts post hpost
-    have wp : wildParts bs = some parts := by
-      rw [e1, wildParts_append_noWild pre e3]; rfl
-    simp only [finishB, wp, domsAt_snd, fixedLen]
+    | some l => dsimp only; split <;> rfl
+  | some parts =>
     cases length with
     | none => rfl
     | some l =>
       dsimp only
-      by_cases hl : l < ((bs.map Blk.seg).map List.length).sum
-      · simp only [hl, if_true]; rfl
-      · simp only [hl, if_false]
-        cases resolve parts (some (l - ((bs.map Blk.seg).map List.length).sum)) with
+      split
+      · rfl
+      · cases resolve parts (some (l - fixedLen (bp ++ bq))) with
         | error e => rfl
         | ok r =>
           obtain ⟨wl, c⟩ := r
-          simp only [pure, Except.pure]
-          have hi : i = pre.length := by omega
-          subst hi
-          congr 2
-          · -- segments
-            rw [e1]
-            simp only [List.map_append, List.map_cons, setAt, fillSegs_append, fillSegs, fs1, fs2]
-            rw [List.take_left' (by simp), drop_len_succ (by simp)]
-          · congr 1
-            -- domains
-            have hk : ((domsAt 0 bs).filter (fun d => d.1 < pre.length)).length = (domsOf pre).length := by
-              rw [e1, domsAt_append, List.filter_append]
-              have ha : (domsAt 0 pre).filter (fun d => decide (d.1 < pre.length)) = domsAt 0 pre := by
-                rw [List.filter_eq_self]
-                intro d hd
-                have := domsAt_range 0 pre d hd
-                simp; omega
-              have hb : (domsAt (0 + pre.length) (.wild parts :: post)).filter (fun d => decide (d.1 < pre.length)) = [] := by
-                rw [List.filter_eq_nil_iff]
-                intro d hd
-                have := domsAt_range _ _ d hd
-                simp; omega
-              rw [ha, hb, List.append_nil, ← domsAt_snd 0 pre, List.length_map]
-            rw [hk, e1, domsOf_append, fillDoms_append]
-            simp only [domsOf, fillDoms, fd1, fd2]
-            rw [List.take_left' rfl, List.drop_left' rfl]
+          simp only [hfs, hfd, Except.map, insSeg]
+
+/-- (a), named reference: inserting a reference `z` / `z*` to a name bound to no nucleotides at position `i`
+    of an item list leaves the outcome of `denoteRegion` unchanged — same error, or the same new domains and
+    counter and the same segments with one empty segment inserted after the segments of the first `i` items -/
+theorem denoteRegion_insert_ref (pfx : String) (env : Env) (items : List SrcItem) (i : Nat) (z : String)
+    (star : Bool) (length : Option Nat) {b : Denote.Bind} (hz : env.seqs.lookup z = some b) (hb : b.nucs = []) :
+    denoteRegion pfx env (items.take i ++ [.ref z star] ++ items.drop i) length =
+      (denoteRegion pfx env items length).map (insSeg (blkCount env (items.take i))) := by
+  rw [denoteRegion_eq_blocks, denoteRegion_eq_blocks]
+  have hsplit : blocks pfx env items env.anon false =
+      blocks pfx env (items.take i ++ items.drop i) env.anon false := by rw [List.take_append_drop]
+  rw [hsplit, List.append_assoc, blocks_append, blocks_append]
+  cases hp : blocks pfx env (items.take i) env.anon false with
+  | error e => rfl
+  | ok p =>
+    have hlen := blocks_length pfx env (items.take i) env.anon false (bs := p.1) (n' := p.2) hp
+    have hnil : (if star then rc b.nucs else b.nucs) = [] := by cases star <;> simp [hb, rc]
+    simp only [List.singleton_append, blocks, hz, hnil]
+    cases blocks pfx env (items.drop i) p.2 (false || hasWild p.1) with
+    | error e => rfl
+    | ok q =>
+      simp only
+      rw [finishB_insert_plain, hlen]
+
+/-! ### forgetting the segmentation -/
+
+inductive FItem
+  | n (x : Nuc)
+  | d (name : String) (c : List Char)
+  | w (parts : List (Mult × Char))
+
+/-- a block list as a sequence of nucleotides, domain introductions and wildcard placeholders -/
+def flat : List Blk → List FItem
+  | [] => []
+  | .plain s :: r => s.map .n ++ flat r
+  | .anon nm c s :: r => .d nm c :: (s.map .n ++ flat r)
+  | .wild p :: r => .w p :: flat r
+
+def fNucs (x : List Nuc) : List FItem → List Nuc
+  | [] => []
+  | .n y :: r => y :: fNucs x r
+  | .d _ _ :: r => fNucs x r
+  | .w _ :: r => x ++ fNucs x r
+
+def fDoms (wd : String × List Char) : List FItem → List (String × List Char)
+  | [] => []
+  | .n _ :: r => fDoms wd r
+  | .d nm c :: r => (nm, c) :: fDoms wd r
+  | .w _ :: r => wd :: fDoms wd r
+
+def fWild : List FItem → Option (List (Mult × Char))
+  | [] => none
+  | .w p :: _ => some p
+  | .n _ :: r => fWild r
+  | .d _ _ :: r => fWild r
+
+def fLen : List FItem → Nat
+  | [] => 0
+  | .n _ :: r => fLen r + 1
+  | .d _ _ :: r => fLen r
+  | .w _ :: r => fLen r
+
+theorem flat_append (a b : List Blk) : flat (a ++ b) = flat a ++ flat b := by
+  induction a with
+  | nil => rfl
+  | cons h t ih => cases h <;> simp [flat, ih]
+
+theorem fNucs_append (x : List Nuc) (a b : List FItem) : fNucs x (a ++ b) = fNucs x a ++ fNucs x b := by
+  induction a with
+  | nil => rfl
+  | cons h t ih => cases h <;> simp [fNucs, ih]
+
+theorem fDoms_append (wd : String × List Char) (a b : List FItem) : fDoms wd (a ++ b) = fDoms wd a ++ fDoms wd b := by
+  induction a with
+  | nil => rfl
+  | cons h t ih => cases h <;> simp [fDoms, ih]
+
+theorem fWild_append (a b : List FItem) : fWild (a ++ b) = (fWild a).or (fWild b) := by
+  induction a with
+  | nil => simp [fWild]
+  | cons h t ih => cases h <;> simp [fWild, ih]
+
+theorem fLen_append (a b : List FItem) : fLen (a ++ b) = fLen a + fLen b := by
+  induction a with
+  | nil => simp [fLen]
+  | cons h t ih => cases h <;> simp [fLen, ih] <;> omega
+
+theorem fNucs_n (x s : List Nuc) : fNucs x (s.map .n) = s := by
+  induction s with
+  | nil => rfl
+  | cons h t ih => simp [fNucs, ih]
+theorem fDoms_n (wd : String × List Char) (s : List Nuc) : fDoms wd (s.map .n) = [] := by
+  induction s with
+  | nil => rfl
+  | cons h t ih => simp [fDoms, ih]
+theorem fWild_n (s : List Nuc) : fWild (s.map .n) = none := by
+  induction s with
+  | nil => rfl
+  | cons h t ih => simp [fWild, ih]
+theorem fLen_n (s : List Nuc) : fLen (s.map .n) = s.length := by
+  induction s with
+  | nil => rfl
+  | cons h t ih => simp [fLen, ih]
+
+theorem fillSegs_flat (x : List Nuc) : ∀ bs : List Blk, (fillSegs x bs).flatten = fNucs x (flat bs)
+  | [] => rfl
+  | .plain s :: r => by simp [fillSegs, flat, fNucs_append, fNucs_n, fillSegs_flat x r]
+  | .anon nm c s :: r => by simp [fillSegs, flat, fNucs, fNucs_append, fNucs_n, fillSegs_flat x r]
+  | .wild p :: r => by simp [fillSegs, flat, fNucs, fillSegs_flat x r]
+
+theorem segs_flat : ∀ bs : List Blk, (bs.map Blk.seg).flatten = fNucs [] (flat bs)
+  | [] => rfl
+  | .plain s :: r => by simp [Blk.seg, flat, fNucs_append, fNucs_n, segs_flat r]
+  | .anon nm c s :: r => by simp [Blk.seg, flat, fNucs, fNucs_append, fNucs_n, segs_flat r]
+  | .wild p :: r => by simp [Blk.seg, flat, fNucs, segs_flat r]
+
+theorem fillDoms_flat (wd : String × List Char) : ∀ bs : List Blk, fillDoms wd bs = fDoms wd (flat bs)
+  | [] => rfl
+  | .plain s :: r => by simp [fillDoms, flat, fDoms_append, fDoms_n, fillDoms_flat wd r]
+  | .anon nm c s :: r => by simp [fillDoms, flat, fDoms, fDoms_append, fDoms_n, fillDoms_flat wd r]
+  | .wild p :: r => by simp [fillDoms, flat, fDoms, fillDoms_flat wd r]
+
+theorem wildParts_flat : ∀ bs : List Blk, wildParts bs = fWild (flat bs)
+  | [] => rfl
+  | .plain s :: r => by simp [wildParts, flat, fWild_append, fWild_n, wildParts_flat r]
+  | .anon nm c s :: r => by simp [wildParts, flat, fWild, fWild_append, fWild_n, wildParts_flat r]
+  | .wild p :: r => by simp [wildParts, flat, fWild]
+
+theorem fixedLen_flat : ∀ bs : List Blk, fixedLen bs = fLen (flat bs)
+  | [] => rfl
+  | .plain s :: r => by
+    have := fixedLen_flat r
+    simp only [fixedLen, List.map_map] at this
+    simp [fixedLen, Blk.seg, flat, fLen_append, fLen_n, this]
+  | .anon nm c s :: r => by
+    have := fixedLen_flat r
+    simp only [fixedLen, List.map_map] at this
+    simp [fixedLen, Blk.seg, flat, fLen, fLen_append, fLen_n, this]
+  | .wild p :: r => by
+    have := fixedLen_flat r
+    simp only [fixedLen, List.map_map] at this
+    simp [fixedLen, Blk.seg, flat, fLen, this]
+
+theorem wildParts_none_iff (bs : List Blk) : wildParts bs = none ↔ hasWild bs = false := by
+  induction bs with
+  | nil => simp [wildParts, hasWild]
+  | cons h t ih => cases h <;> simp_all [wildParts, hasWild, Blk.isWild]
+
+/-- a region result with the segmentation forgotten -/
+def flat3 (r : List (List Nuc) × List (String × List Char) × Nat) : List Nuc × List (String × List Char) × Nat :=
+  (r.1.flatten, r.2.1, r.2.2)
+
+def finishF (pfx : String) (fl : List FItem) (n : Nat) (length : Option Nat) :
+    Except Denote.Err (List Nuc × List (String × List Char) × Nat) :=
+  match fWild fl with
+  | none =>
+    match length with
+    | some l => if l != fLen fl then .error .length else .ok (fNucs [] fl, fDoms ("", []) fl, n)
+    | none => .ok (fNucs [] fl, fDoms ("", []) fl, n)
+  | some parts =>
+    match length with
+    | none => .error .wildcard
+    | some l =>
+      if l < fLen fl then .error .length
+      else match resolve parts (some (l - fLen fl)) with
+        | .error _ => .error .length
+        | .ok (wl, c) =>
+          .ok (fNucs (fwd (pfx ++ "_Anon" ++ toString n) wl) fl, fDoms (pfx ++ "_Anon" ++ toString n, c) fl, n + 1)
+
+theorem finishB_flat (pfx : String) (bs : List Blk) (n : Nat) (length : Option Nat) :
+    (finishB pfx bs n length).map flat3 = finishF pfx (flat bs) n length := by
+  unfold finishB finishF
+  rw [← wildParts_flat, ← fixedLen_flat]
+  cases hw : wildParts bs with
+  | none =>
+    have hn := (wildParts_none_iff bs).1 hw
+    obtain ⟨_, _, fd⟩ := noWild_facts bs hn
+    have e1 : domsOf bs = fDoms ("", []) (flat bs) := by rw [← fillDoms_flat, fd]
+    cases length with
+    | none => simp [Except.map, flat3, segs_flat, e1]
+    | some l =>
+      dsimp only
+      split
+      · rfl
+      · simp [Except.map, flat3, segs_flat, e1]
+  | some parts =>
+    cases length with
+    | none => rfl
+    | some l =>
+      dsimp only
+      split
+      · rfl
+      · cases resolve parts (some (l - fixedLen bs)) with
+        | error e => rfl
+        | ok r =>
+          obtain ⟨wl, c⟩ := r
+          simp [Except.map, flat3, fillSegs_flat, fillDoms_flat]
+
+/-- `denoteRegion` with the segmentation forgotten, index-free -/
+theorem denoteRegion_flat (pfx : String) (env : Env) (items : List SrcItem) (length : Option Nat) :
+    (denoteRegion pfx env items length).map flat3 =
+      match blocks pfx env items env.anon false with
+      | .error e => .error e
+      | .ok p => finishF pfx (flat p.1) p.2 length := by
+  rw [denoteRegion_eq_blocks]
+  cases blocks pfx env items env.anon false with
+  | error e => rfl
+  | ok p => exact finishB_flat pfx p.1 p.2 length
+
+/-! ### renaming domains -/
+
+def rnNuc (ρ : String → String) (x : Nuc) : Nuc := ⟨⟨ρ x.var.dom, x.var.idx⟩, x.comp⟩
+def rnSeg (ρ : String → String) (s : List Nuc) : List Nuc := s.map (rnNuc ρ)
+def rnF (ρ : String → String) : FItem → FItem
+  | .n x => .n (rnNuc ρ x)
+  | .d nm c => .d (ρ nm) c
+  | .w p => .w p
+
+theorem rnSeg_rc (ρ : String → String) (s : List Nuc) : rnSeg ρ (rc s) = rc (rnSeg ρ s) := by
+  simp [rnSeg, rc, List.map_reverse, Function.comp_def, rnNuc, Nuc.flip]
+
+theorem rnSeg_fwd (ρ : String → String) (nm : String) (l : Nat) : rnSeg ρ (fwd nm l) = fwd (ρ nm) l := by
+  simp [rnSeg, fwd, rnNuc, Function.comp_def]
+
+theorem rnSeg_append (ρ : String → String) (a b : List Nuc) : rnSeg ρ (a ++ b) = rnSeg ρ a ++ rnSeg ρ b := by
+  simp [rnSeg]
+
+theorem rnSeg_id (s : List Nuc) : rnSeg id s = s := by
+  have : rnNuc id = id := by funext x; rfl
+  simp [rnSeg, this]
+
+theorem rcSegs_flatten (segs : List (List Nuc)) : (rcSegs segs).flatten = rc segs.flatten := by
+  induction segs with
+  | nil => rfl
+  | cons h t ih =>
+    simp only [rcSegs, List.reverse_cons, List.map_append, List.map_cons, List.map_nil, List.flatten_append,
+      List.flatten_cons, List.flatten_nil, List.append_nil] at ih ⊢
+    rw [ih]
+    simp [rc, List.reverse_append]
+
+theorem flat_plain (segs : List (List Nuc)) : flat (segs.map .plain) = segs.flatten.map .n := by
+  induction segs with
+  | nil => rfl
+  | cons h t ih => simp [flat, ih]
+
+theorem map_rnF_n (ρ : String → String) (s : List Nuc) : (s.map FItem.n).map (rnF ρ) = (rnSeg ρ s).map .n := by
+  simp [rnSeg, rnF, Function.comp_def]
+
+/-- `ρ` renumbers the anonymous domains under prefix `pfx` from `n0` on by `k` -/
+def RenumP (ρ : String → String) (pfx : String) (n0 k : Nat) : Prop :=
+  ∀ m, n0 ≤ m → ρ (pfx ++ "_Anon" ++ toString m) = pfx ++ "_Anon" ++ toString (m + k)
+
+def BindRel (ρ : String → String) (b b' : Denote.Bind) : Prop :=
+  b'.nucs = rnSeg ρ b.nucs ∧ b'.isSup = b.isSup ∧ b'.segs.flatten = rnSeg ρ b.segs.flatten
+
+/-- two tables bind the same names, to the same nucleotides up to `ρ`; the segmentations may differ -/
+def SeqsRel (ρ : String → String) (l l' : List (String × Denote.Bind)) : Prop :=
+  ∀ x, match l.lookup x, l'.lookup x with
+    | none, none => True
+    | some b, some b' => BindRel ρ b b'
+    | _, _ => False
+
+theorem map_eq_error {ε α β} {f : α → β} {x : Except ε α} {e : ε} (h : x.map f = .error e) : x = .error e := by
+  cases x with
+  | error e' => simpa [Except.map] using h
+  | ok a => simp [Except.map] at h
+
+theorem map_eq_ok {ε α β} {f : α → β} {x : Except ε α} {y : β} (h : x.map f = .ok y) : ∃ z, x = .ok z ∧ f z = y := by
+  cases x with
+  | error e' => simp [Except.map] at h
+  | ok a => exact ⟨a, rfl, by simpa [Except.map] using h⟩
+
+/-- the blocks of an item list in two related environments, the second run with the counter shifted by `k`:
+    same failure, or the same flattened blocks up to `ρ` and the counter shifted -/
+theorem blocks_rel (pfx : String) {ρ : String → String} {n0 k : Nat} (hr : RenumP ρ pfx n0 k) (e e' : Env)
+    (hs : SeqsRel ρ e.seqs e'.seqs) :
+    ∀ (items : List SrcItem) (n : Nat) (w : Bool), n0 ≤ n →
+      (blocks pfx e' items (n + k) w).map (fun p => (flat p.1, p.2)) =
+        (blocks pfx e items n w).map (fun p => ((flat p.1).map (rnF ρ), p.2 + k))
+  | [], n, w, _ => by simp [blocks, Except.map, flat]
+  | .ref x star :: r, n, w, hn => by
+    have ih := blocks_rel pfx hr e e' hs r n w hn
+    have hx := hs x
+    simp only [blocks]
+    cases h1 : e.seqs.lookup x with
+    | none =>
+      cases h2 : e'.seqs.lookup x with
+      | none => rfl
+      | some b' => simp [h1, h2] at hx
+    | some b =>
+      cases h2 : e'.seqs.lookup x with
+      | none => simp [h1, h2] at hx
+      | some b' =>
+        simp only [h1, h2] at hx
+        obtain ⟨hnuc, _, _⟩ := hx
+        dsimp only
+        cases hb : blocks pfx e r n w with
+        | error err =>
+          rw [hb] at ih
+          rw [map_eq_error ih]
+          rfl
+        | ok p =>
+          rw [hb] at ih
+          obtain ⟨p', hp', hf⟩ := map_eq_ok ih
+          rw [hp']
+          simp only [Prod.mk.injEq] at hf
+          have hseg : (if star then rc b'.nucs else b'.nucs) = rnSeg ρ (if star then rc b.nucs else b.nucs) := by
+            cases star <;> simp [hnuc, rnSeg_rc]
+          simp only [Except.map, flat, hseg, hf.1, hf.2, List.map_append, map_rnF_n]
+  | .domains x star :: r, n, w, hn => by
+    have ih := blocks_rel pfx hr e e' hs r n w hn
+    have hx := hs x
+    simp only [blocks]
+    cases h1 : e.seqs.lookup x with
+    | none =>
+      cases h2 : e'.seqs.lookup x with
+      | none => rfl
+      | some b' => simp [h1, h2] at hx
+    | some b =>
+      cases h2 : e'.seqs.lookup x with
+      | none => simp [h1, h2] at hx
+      | some b' =>
+        simp only [h1, h2] at hx
+        obtain ⟨_, hsup, hsegs⟩ := hx
+        dsimp only
+        rw [hsup]
+        split
+        · rfl
+        · cases hb : blocks pfx e r n w with
+          | error err =>
+            rw [hb] at ih
+            rw [map_eq_error ih]
+            rfl
+          | ok p =>
+            rw [hb] at ih
+            obtain ⟨p', hp', hf⟩ := map_eq_ok ih
+            rw [hp']
+            simp only [Prod.mk.injEq] at hf
+            have hseg : (if star then rcSegs b'.segs else b'.segs).flatten =
+                rnSeg ρ (if star then rcSegs b.segs else b.segs).flatten := by
+              cases star <;> simp [hsegs, rcSegs_flatten, rnSeg_rc]
+            simp only [Except.map, flat_append, flat_plain, hseg, hf.1, hf.2, List.map_append, map_rnF_n]
+  | .nuc text :: r, n, w, hn => by
+    simp only [blocks]
+    split
+    · rename_i l c _
+      have ih := blocks_rel pfx hr e e' hs r (n + 1) w (Nat.le_succ_of_le hn)
+      have e1 : n + k + 1 = n + 1 + k := by omega
+      rw [e1]
+      cases hb : blocks pfx e r (n + 1) w with
+      | error err =>
+        rw [hb] at ih
+        rw [map_eq_error ih]
+        rfl
+      | ok p =>
+        rw [hb] at ih
+        obtain ⟨p', hp', hf⟩ := map_eq_ok ih
+        rw [hp']
+        simp only [Prod.mk.injEq] at hf
+        simp only [Except.map, flat, hf.1, hf.2, List.map_cons, List.map_append, map_rnF_n, rnF, rnSeg_fwd, hr n hn]
+    · cases w with
+      | true => rfl
+      | false =>
+        have ih := blocks_rel pfx hr e e' hs r n true hn
+        simp only [Bool.false_eq_true, if_false]
+        cases hb : blocks pfx e r n true with
+        | error err =>
+          rw [hb] at ih
+          rw [map_eq_error ih]
+          rfl
+        | ok p =>
+          rw [hb] at ih
+          obtain ⟨p', hp', hf⟩ := map_eq_ok ih
+          rw [hp']
+          simp only [Prod.mk.injEq] at hf
+          simp only [Except.map, flat, hf.1, hf.2, List.map_cons, rnF]
+    · rfl
+
+theorem blocks_counter_le (pfx : String) (env : Env) :
+    ∀ (items : List SrcItem) (n : Nat) (w : Bool) {bs : List Blk} {n' : Nat},
+      blocks pfx env items n w = .ok (bs, n') → n ≤ n'
+  | [], n, w, bs, n', h => by
+    simp only [blocks, Except.ok.injEq, Prod.mk.injEq] at h
+    omega
+  | .ref x star :: r, n, w, bs, n', h => by
+    simp only [blocks] at h
+    cases hl : env.seqs.lookup x with
+    | none => simp [hl] at h
+    | some b =>
+      simp only [hl] at h
+      cases hb : blocks pfx env r n w with
+      | error e => simp [hb] at h
+      | ok p =>
+        simp only [hb, Except.ok.injEq, Prod.mk.injEq] at h
+        have := blocks_counter_le pfx env r n w (bs := p.1) (n' := p.2) hb
+        omega
+  | .domains x star :: r, n, w, bs, n', h => by
+    simp only [blocks] at h
+    cases hl : env.seqs.lookup x with
+    | none => simp [hl] at h
+    | some b =>
+      simp only [hl] at h
+      split at h
+      · cases h
+      · cases hb : blocks pfx env r n w with
+        | error e => simp [hb] at h
+        | ok p =>
+          simp only [hb, Except.ok.injEq, Prod.mk.injEq] at h
+          have := blocks_counter_le pfx env r n w (bs := p.1) (n' := p.2) hb
+          omega
+  | .nuc text :: r, n, w, bs, n', h => by
+    simp only [blocks] at h
+    split at h
+    · cases hb : blocks pfx env r (n + 1) w with
+      | error e => simp [hb] at h
+      | ok p =>
+        simp only [hb, Except.ok.injEq, Prod.mk.injEq] at h
+        have := blocks_counter_le pfx env r (n + 1) w (bs := p.1) (n' := p.2) hb
+        omega
+    · cases w with
+      | true => simp at h
+      | false =>
+        simp only [Bool.false_eq_true, if_false] at h
+        cases hb : blocks pfx env r n true with
+        | error e => simp [hb] at h
+        | ok p =>
+          simp only [hb, Except.ok.injEq, Prod.mk.injEq] at h
+          have := blocks_counter_le pfx env r n true (bs := p.1) (n' := p.2) hb
+          omega
+    · cases h
+
+/-- a flattened region result renamed, the counter shifted -/
+def rn3 (ρ : String → String) (k : Nat) (r : List Nuc × List (String × List Char) × Nat) :
+    List Nuc × List (String × List Char) × Nat :=
+  (rnSeg ρ r.1, r.2.1.map (fun d => (ρ d.1, d.2)), r.2.2 + k)
+
+theorem fNucs_rn (ρ : String → String) (x : List Nuc) (fl : List FItem) :
+    fNucs (rnSeg ρ x) (fl.map (rnF ρ)) = rnSeg ρ (fNucs x fl) := by
+  induction fl with
+  | nil => rfl
+  | cons h t ih => cases h <;> simp_all [fNucs, rnF, rnSeg]
+
+theorem fDoms_rn (ρ : String → String) (wd : String × List Char) (fl : List FItem) :
+    fDoms (ρ wd.1, wd.2) (fl.map (rnF ρ)) = (fDoms wd fl).map (fun d => (ρ d.1, d.2)) := by
+  induction fl with
+  | nil => rfl
+  | cons h t ih => cases h <;> simp_all [fDoms, rnF]
+
+theorem fWild_rn (ρ : String → String) (fl : List FItem) : fWild (fl.map (rnF ρ)) = fWild fl := by
+  induction fl with
+  | nil => rfl
+  | cons h t ih => cases h <;> simp_all [fWild, rnF]
+
+theorem fLen_rn (ρ : String → String) (fl : List FItem) : fLen (fl.map (rnF ρ)) = fLen fl := by
+  induction fl with
+  | nil => rfl
+  | cons h t ih => cases h <;> simp_all [fLen, rnF]
+
+theorem fDoms_irrel (wd wd' : String × List Char) (fl : List FItem) (h : fWild fl = none) :
+    fDoms wd fl = fDoms wd' fl := by
+  induction fl with
+  | nil => rfl
+  | cons x t ih => cases x <;> simp_all [fDoms, fWild]
+
+theorem finishF_rn (pfx : String) (ρ : String → String) (k n : Nat)
+    (hn : ρ (pfx ++ "_Anon" ++ toString n) = pfx ++ "_Anon" ++ toString (n + k)) (fl : List FItem) (length : Option Nat) :
+    finishF pfx (fl.map (rnF ρ)) (n + k) length = (finishF pfx fl n length).map (rn3 ρ k) := by
+  unfold finishF
+  rw [fWild_rn, fLen_rn]
+  cases hw : fWild fl with
+  | none =>
+    have e0 : fNucs [] (fl.map (rnF ρ)) = rnSeg ρ (fNucs [] fl) := fNucs_rn ρ [] fl
+    have e1 : fDoms ("", []) (fl.map (rnF ρ)) = (fDoms ("", []) fl).map (fun d => (ρ d.1, d.2)) := by
+      rw [fDoms_irrel ("", []) (ρ "", []) _ (by rw [fWild_rn]; exact hw)]
+      exact fDoms_rn ρ ("", []) fl
+    cases length with
+    | none => simp [Except.map, rn3, e0, e1]
+    | some l =>
+      dsimp only
+      split
+      · rfl
+      · simp [Except.map, rn3, e0, e1]
+  | some parts =>
+    cases length with
+    | none => rfl
+    | some l =>
+      dsimp only
+      split
+      · rfl
+      · cases resolve parts (some (l - fLen fl)) with
+        | error e => rfl
+        | ok r =>
+          obtain ⟨wl, c⟩ := r
+          have e0 := fNucs_rn ρ (fwd (pfx ++ "_Anon" ++ toString n) wl) fl
+          have e1 := fDoms_rn ρ (pfx ++ "_Anon" ++ toString n, c) fl
+          rw [rnSeg_fwd, hn] at e0
+          simp only [hn] at e1
+          simp only [Except.map, rn3, e0, e1]
+          congr 3
+          omega
+
+/-- two related environments, the second with the counter shifted by `k`: `denoteRegion` fails alike or
+    yields the same nucleotides and new domains up to `ρ` and the counter shifted -/
+theorem denoteRegion_rel (pfx : String) {ρ : String → String} {k : Nat} (e e' : Env)
+    (hr : RenumP ρ pfx e.anon k) (hs : SeqsRel ρ e.seqs e'.seqs) (ha : e'.anon = e.anon + k)
+    (items : List SrcItem) (length : Option Nat) :
+    (denoteRegion pfx e' items length).map flat3 =
+      (denoteRegion pfx e items length).map (fun r => rn3 ρ k (flat3 r)) := by
+  have hcomp : (denoteRegion pfx e items length).map (fun r => rn3 ρ k (flat3 r)) =
+      ((denoteRegion pfx e items length).map flat3).map (rn3 ρ k) := by
+    cases denoteRegion pfx e items length <;> rfl
+  rw [hcomp, denoteRegion_flat, denoteRegion_flat, ha]
+  have hb := blocks_rel pfx hr e e' hs items e.anon false (Nat.le_refl _)
+  cases h1 : blocks pfx e items e.anon false with
+  | error err =>
+    rw [h1] at hb
+    rw [map_eq_error hb]
+    rfl
+  | ok p =>
+    rw [h1] at hb
+    obtain ⟨p', hp', hf⟩ := map_eq_ok hb
+    rw [hp']
+    simp only [Prod.mk.injEq] at hf
+    dsimp only
+    rw [hf.1, hf.2]
+    exact finishF_rn pfx ρ k p.2 (hr p.2 (blocks_counter_le pfx e items e.anon false h1)) (flat p.1) length
 
 end Pepper.DenoteZero
